@@ -43,6 +43,13 @@ def run_shard(spec, rep):
             total = sc.dt * sc.n
             sc.program = TemperatureProgram(coefficients=[sc.t0, -sc.t0 * rng.uniform(0.6, 4.0) / total], type="polynomial")
             sc.conditions.temperature_program = sc.program
+        if sc.ideal and rng.random() < 0.05:
+            # a barrier membrane: stated permeance exactly 0 for both components (fluxes exactly zero in vacuum mode)
+            from pyvaporation.permeance import Permeance
+
+            for e in sc.membrane.ideal_experiments.experiments:
+                e.permeance = Permeance(value=0.0, units=e.permeance.units)
+                e.activation_energy = 1000.0
         case = dict(sc.describe(), index=index)
         status, model = sc.run()
         hostile = coarse and sc.f0 * sc.n >= 1.0
